@@ -23,6 +23,8 @@ left alone.
   N38  `reduce(f, seq, init)` (first thing a statement evaluates)  ==  `acc = init; for y in seq: acc = f(acc, y)`
   N39  `a, b = x, y`  ==  `a = x; b = y`  (values; no target is read on the right)
   N40  `x = E; while c(x): B; x = E`  ==  `while True: x = E; if not c(x): break; B`  (B without `continue`)
+  N44  `T = E` directly followed by a read of T  ==  `t = E; T = t` followed by the read of t   (store-to-load forwarding)
+  N42  `o.f = a if c else b`  ==  `if c: o.f = a else: o.f = b`   (stores into state; a local keeps the expression)
   N37  `return a if c else b`                         ==  `if c: return a` followed by `return b`
 """
 import ast
@@ -128,15 +130,20 @@ class Expr(ast.NodeTransformer):
 
     def visit_IfExp(self, node):
         self.generic_visit(node)
-        # N33 (the test may still be spelled `a > b`)
+        # N33 (the test may still be spelled `a > b`, the zero may be in either arm, equality may go to either side)
         t = node.test
-        if isinstance(t, ast.Compare) and len(t.ops) == 1 and isinstance(t.ops[0], (ast.Lt, ast.Gt)) \
-                and isinstance(node.orelse, ast.Constant) and node.orelse.value == 0 and not isinstance(node.orelse.value, bool) \
-                and isinstance(node.body, ast.BinOp) and isinstance(node.body.op, ast.Sub):
-            small, big = (t.left, t.comparators[0]) if isinstance(t.ops[0], ast.Lt) else (t.comparators[0], t.left)
-            if ast.unparse(node.body.left) == ast.unparse(big) and ast.unparse(node.body.right) == ast.unparse(small) \
-                    and canon.is_pure(node.body):
-                args = sorted([node.orelse, node.body], key=ast.unparse)
+        body, orelse = node.body, node.orelse
+        if isinstance(t, ast.Compare) and len(t.ops) == 1 and isinstance(t.ops[0], (ast.Lt, ast.Gt, ast.LtE, ast.GtE)):
+            op = type(t.ops[0])
+            l, r = t.left, t.comparators[0]
+            if isinstance(body, ast.Constant) and body.value == 0 and not isinstance(body.value, bool):
+                body, orelse = orelse, body
+                op = {ast.Lt: ast.GtE, ast.LtE: ast.Gt, ast.Gt: ast.LtE, ast.GtE: ast.Lt}[op]      # the negated test
+            small, big = (l, r) if op in (ast.Lt, ast.LtE) else (r, l)
+            if isinstance(orelse, ast.Constant) and orelse.value == 0 and not isinstance(orelse.value, bool) \
+                    and isinstance(body, ast.BinOp) and isinstance(body.op, ast.Sub) \
+                    and ast.unparse(body.left) == ast.unparse(big) and ast.unparse(body.right) == ast.unparse(small) and canon.is_pure(body):
+                args = sorted([orelse, body], key=ast.unparse)
                 return loc(ast.Call(func=_name('max', like=node), args=args, keywords=[]), node)
         return node
 
@@ -255,6 +262,50 @@ def rewrite_blocks(fn):
                     blk[i:i] = new
                     changed = True
                     i += 2
+                    continue
+            # N44: `T = E` directly followed by a statement that reads T back (`d[k] = f(); return d[k]`) is
+            # `t = E; T = t` followed by the statement reading t
+            if isinstance(st, ast.Assign) and len(st.targets) == 1 and isinstance(st.targets[0], (ast.Subscript, ast.Attribute)) \
+                    and canon.is_pure(st.targets[0]) and not isinstance(st.value, (ast.Name, ast.Constant)) and rest \
+                    and isinstance(rest[0], (ast.Return, ast.Expr, ast.Assign)):
+                path = ast.unparse(st.targets[0])
+                hits = [n for n in ast.walk(rest[0]) if isinstance(n, (ast.Subscript, ast.Attribute)) and isinstance(n.ctx, ast.Load)
+                        and ast.unparse(n) == path]
+                first_impure = None
+                for n in canon._eval_order(rest[0]):
+                    if hits and n is hits[0]:
+                        break
+                    if isinstance(n, ast.Call) and not canon.is_pure(n):
+                        first_impure = n
+                        break
+                if hits and first_impure is None and not any(isinstance(n, (ast.Lambda, ast.GeneratorExp, ast.ListComp, ast.SetComp, ast.DictComp))
+                                                             for n in ast.walk(rest[0])):
+                    tmp = _fresh('stored', taken)
+                    class _R(ast.NodeTransformer):
+                        def generic_visit(self, n):
+                            if isinstance(n, (ast.Subscript, ast.Attribute)) and isinstance(n.ctx, ast.Load) and ast.unparse(n) == path:
+                                return _name(tmp, like=n)
+                            return super(_R, self).generic_visit(n)
+                    if isinstance(rest[0], ast.Assign):
+                        rest[0].value = _R().visit(rest[0].value)
+                    else:
+                        blk[i + 1] = _R().visit(rest[0])
+                    blk[i:i + 1] = [loc(ast.Assign(targets=[_name(tmp, ast.Store(), st)], value=st.value, type_comment=None), st),
+                                    loc(ast.Assign(targets=st.targets, value=_name(tmp, like=st), type_comment=None), st)]
+                    changed = True
+                    i += 2
+                    continue
+            # N42: `x = a if c else b` is `if c: x = a else: x = b` (targets whose own sub-expressions are values)
+            if isinstance(st, (ast.Assign, ast.AugAssign)) and isinstance(st.value, ast.IfExp):
+                tgts = st.targets if isinstance(st, ast.Assign) else [st.target]
+                # (a *local* bound to a conditional expression stays an expression: N10 substitutes it where it is used, which is
+                # the form the same code has when the conditional is written inline)
+                if len(tgts) == 1 and isinstance(tgts[0], (ast.Attribute, ast.Subscript)) and canon.is_pure(tgts[0]):
+                    v = st.value
+                    a, b = copy.deepcopy(st), copy.deepcopy(st)
+                    a.value, b.value = v.body, v.orelse
+                    blk[i] = loc(ast.If(test=v.test, body=[a], orelse=[b]), st)
+                    changed = True
                     continue
             # N24
             if isinstance(st, ast.Try) and st.orelse and not st.finalbody and _handlers_leave(st):
